@@ -98,7 +98,7 @@ func runCase(p *Prop, idx int, c Case) *Result {
 	return r
 }
 
-var libFrameRe = regexp.MustCompile(`nhooyr\.io/websocket(?:/[a-z]+)*\.([\w\(\)\*\.]+)`)
+var libFrameRe = regexp.MustCompile(`nhooyr\.io/websocket(?:/[a-z]+)*\.((?:\(\*?\w+\)\.)?\w+(?:\.func\d+|\.deferwrap\d+)*)`)
 
 // panicSite returns the innermost library function in a stack trace.
 func panicSite(stack string) string {
